@@ -35,28 +35,49 @@ structure ProgG (app : App) : Prop where
 
 theorem ProgR.toG {app : App} (h : ProgR app) : ProgG app := ⟨h.small, h.nofwd, proved_of_slr app h.sl⟩
 
-/-- the program has no conditional branch (then nothing is ever flushed) -/
-def NoCond (app : App) : Prop := app.instrs.all (fun i => !i.instructionType.IsConditionalBranch) = true
+/-- the class with jumps (package R60c) -/
+structure ProgJ (app : App) : Prop where
+  small : app.instrs.length < 250
+  nofwd : ∀ g ∈ app.instrs, fwdOf g = {}
+  cls : JClass app = true
+
+theorem ProgG.toJ {app : App} (h : ProgG app) : ProgJ app := ⟨h.small, h.nofwd, jclass_of_proved app h.cls⟩
+
+/-- the program has no branch and no jump (then nothing is ever flushed) -/
+def NoCond (app : App) : Prop := app.instrs.all (fun i => !i.instructionType.IsBranch) = true
+
+theorem noJmp_of_noCond {app : App} (h : NoCond app) : NoJmp app := by
+  simp only [NoCond, List.all_eq_true, Bool.not_eq_true'] at h
+  simp only [NoJmp, List.all_eq_true, Bool.not_eq_true']
+  intro i hi
+  have := h i hi
+  simp only [Gen.InstructionType.IsBranch, Bool.or_eq_false_iff] at this
+  exact this.1
+
+/-- the results on the write bus belong to instructions before the architectural pc -/
+def Wlt (s : State) (a : Arch) : Prop := ∀ ec ∈ s.writeBus.inside, ec.seq.toInt < a.pc.toInt
+
+/-- a quiet tick: nothing can be issued or executed in it, and nothing has been -/
+def Quiet (s : State) : Prop :=
+  s.executeBus.inside = [] ∧ s.cuPendings.items = [] ∧ s.controlBus.queue = [] ∧ s.writeBus.buffer = []
 
 /-- sequence ids: with `ctx.sequenceID = 0` (what `NewContext` installs; MVP-6.0 never changes it) the sequence id of an
 instruction is its pc, and the results on the write bus belong to instructions before the architectural pc -/
 structure Seqs (app : App) (s : State) (a : Arch) : Prop where
   sid : s.ctx.sequenceID = 0 ∨ NoCond app
   rseq : ¬ NoCond app → s.ctx.sequenceID = 0 → ∀ r ∈ runners s, r.seq = r.pc
-  wseq : ¬ NoCond app → s.ctx.sequenceID = 0 → ∀ ec ∈ s.writeBus.inside, ec.seq.toInt < a.pc.toInt
 
-theorem Seqs.mono {app : App} {s s' : State} {a : Arch} (h : Seqs app s a) (hsid : s'.ctx.sequenceID = s.ctx.sequenceID)
-    (hr : ∀ r ∈ runners s', r ∈ runners s ∨ (s.ctx.sequenceID = 0 → r.seq = r.pc))
-    (hw : ∀ ec ∈ s'.writeBus.inside, ec ∈ s.writeBus.inside) : Seqs app s' a := by
-  refine ⟨by rw [hsid]; exact h.sid, ?_, ?_⟩
-  · intro hnc h0 r hmem
-    rw [hsid] at h0
-    rcases hr r hmem with h1 | h1
-    · exact h.rseq hnc h0 r h1
-    · exact h1 h0
-  · intro hnc h0 ec hec
-    rw [hsid] at h0
-    exact h.wseq hnc h0 ec (hw ec hec)
+theorem Seqs.mono {app : App} {s s' : State} {a a' : Arch} (h : Seqs app s a) (hsid : s'.ctx.sequenceID = s.ctx.sequenceID)
+    (hr : ∀ r ∈ runners s', r ∈ runners s ∨ (s.ctx.sequenceID = 0 → r.seq = r.pc)) : Seqs app s' a' := by
+  refine ⟨by rw [hsid]; exact h.sid, ?_⟩
+  intro hnc h0 r hmem
+  rw [hsid] at h0
+  rcases hr r hmem with h1 | h1
+  · exact h.rseq hnc h0 r h1
+  · exact h1 h0
+
+theorem Wlt.mono {s s' : State} {a : Arch} (h : Wlt s a) (hw : ∀ ec ∈ s'.writeBus.inside, ec ∈ s.writeBus.inside) : Wlt s' a :=
+  fun ec hec => h ec (hw ec hec)
 
 /-- the runner is a `ret` -/
 def isRet (x : Runner) : Prop := (x.instr.instructionType == Gen.InstructionType.Ret) = true
@@ -100,7 +121,7 @@ theorem brHead_cons {x : Runner} {q : List Runner} (h : BrHead (x :: q)) : ∀ y
 
 /-- the state between the units of one tick: front, back, and the occupancy facts the execute units need -/
 structure Mid (app : App) (s : State) (a : Arch) (i : Nat) : Prop where
-  front : ∃ n0, a.pc = pcOf n0 ∧ Front app s n0
+  front : ∃ n0, a.pc = pcOf n0 ∧ FrontJ app s n0
   back : Back s.ctx s.writeBus.inside s.executeBus.inside a
   eus : ∀ eu ∈ s.eus, eu.co = .none ∧ eu.memory = []
   wbi : s.writeBus.buffer.length ≤ i
@@ -112,6 +133,10 @@ structure Mid (app : App) (s : State) (a : Arch) (i : Nat) : Prop where
   /-- a `ret` issued in this cycle is alone on the execute bus -/
   retBuf : ∀ e ∈ s.executeBus.buffer, isRet e.2 → s.executeBus.queue = [] ∧ s.executeBus.buffer = [(s.cycles + 1, e.2)]
   seqs : Seqs app s a
+  /-- the results on the write bus are older than the architectural pc — or this is a quiet tick, or a correctly predicted
+  jump has just executed and nothing is left to execute (then the results of that tick may carry greater sequence ids:
+  they are gone before the next instruction executes) -/
+  stale : ¬ NoCond app → s.ctx.sequenceID = 0 → Wlt s a ∨ Quiet s ∨ runners s = []
   /-- at most one execute unit (no two instructions execute in one tick), or a program that never flushes, or the
   occupancy facts of the wide machine -/
   k1 : s.eus.length ≤ 1 ∨ NoCond app ∨ WideM s i
@@ -129,16 +154,15 @@ structure EuKeep (s s' : State) : Prop where
   xql : s'.executeBus.queueLength = s.executeBus.queueLength
   xq : s'.executeBus.queue.length ≤ s.executeBus.queue.length
   ctx : s'.ctx = s.ctx
-  fu : s'.fu = s.fu
   decodeBus : s'.decodeBus = s.decodeBus
   wbl : s'.writeBus.bufferLength = s.writeBus.bufferLength
   xbl : s'.executeBus.bufferLength = s.executeBus.bufferLength
 
-theorem EuKeep.refl (s : State) : EuKeep s s := ⟨rfl, rfl, rfl, rfl, rfl, rfl, rfl, rfl, rfl, Nat.le_refl _, rfl, rfl, rfl, rfl, rfl⟩
+theorem EuKeep.refl (s : State) : EuKeep s s := ⟨rfl, rfl, rfl, rfl, rfl, rfl, rfl, rfl, rfl, Nat.le_refl _, rfl, rfl, rfl, rfl⟩
 theorem EuKeep.trans {a b c : State} (h1 : EuKeep a b) (h2 : EuKeep b c) : EuKeep a c :=
   ⟨h2.wq.trans h1.wq, h2.wus.trans h1.wus, h2.eul.trans h1.eul, h2.cyc.trans h1.cyc, h2.pend.trans h1.pend,
    h2.mmu.trans h1.mmu, h2.mode.trans h1.mode, h2.wql.trans h1.wql, h2.xql.trans h1.xql, Nat.le_trans h2.xq h1.xq,
-   h2.ctx.trans h1.ctx, h2.fu.trans h1.fu, h2.decodeBus.trans h1.decodeBus, h2.wbl.trans h1.wbl, h2.xbl.trans h1.xbl⟩
+   h2.ctx.trans h1.ctx, h2.decodeBus.trans h1.decodeBus, h2.wbl.trans h1.wbl, h2.xbl.trans h1.xbl⟩
 
 theorem runners_cons (s : State) (x : Runner) (q : List Runner) (h : s.executeBus.queue = x :: q) :
     runners s = x :: runners { s with executeBus := { s.executeBus with queue := q } } := by
@@ -176,6 +200,7 @@ structure FlushNow (app : App) (s s' : State) (a' : Arch) (from_ : Word) : Prop 
   rseq : ∀ r ∈ runners s', r.seq = r.pc
   noRet : ∀ y ∈ s'.executeBus.queue, ¬ isRet y
   sid0 : s'.ctx.sequenceID = 0
+  plain : NoJmp app → s'.fu.toCleanPending = false
 
 theorem ite_pair_snd {α β : Type} (c : Prop) [Decidable c] (a b : α) (f : β) : (if c then (a, f) else (b, f)).2 = f := by
   split <;> rfl
@@ -185,15 +210,29 @@ theorem ite_pair_fst {α β : Type} (c : Prop) [Decidable c] (a b : α) (f : β)
   split <;> rfl
 
 /-- the state an execute unit leaves behind when it has executed `x` with result `e` -/
-def afterExec (s : State) (i : Nat) (x : Runner) (q : List Runner) (bu : BranchUnit) (e : Gen.Execution) : State :=
-  { s with bu := bu, executeBus := { s.executeBus with queue := q }, eus := s.eus.set i { co := .none, memory := [], runner := some x }, writeBus := s.writeBus.add (ecOf x e) s.cycles, executed := s.executed + 1 }
+def afterExec (s : State) (i : Nat) (x : Runner) (q : List Runner) (bu : BranchUnit) (e : Gen.Execution)
+    (fu : FetchUnit) (du : DecodeUnit) : State :=
+  { s with bu := bu, fu := fu, du := du, executeBus := { s.executeBus with queue := q }, eus := s.eus.set i { co := .none, memory := [], runner := some x }, writeBus := s.writeBus.add (ecOf x e) s.cycles, executed := s.executed + 1 }
 
 theorem pcOf_lt (j k : Nat) (hk : k < 2 ^ 20) (h : j < k) : (pcOf j).toInt < (pcOf k).toInt := by
   rw [pcOf_toInt j (by omega), pcOf_toInt k hk]; omega
 
+theorem buAssert_jump (bu : BranchUnit) (fu : FetchUnit) (x : Runner) (hj : x.instr.instructionType.IsUnconditionalBranch = true) :
+    ∃ bu1 fu1, buAssert bu fu x = (bu1, fu1) ∧ bu1.toCheck = true ∧ ∀ T, fu1.reset T true = fu.reset T true := by
+  unfold buAssert
+  simp only [hj, if_true]
+  split
+  · exact ⟨_, _, rfl, rfl, fun _ => rfl⟩
+  · exact ⟨_, _, rfl, rfl, fun _ => rfl⟩
+
+theorem runners_nil {s : State} (h : runners s = []) :
+    s.executeBus.queue = [] ∧ s.executeBus.buffer = [] ∧ s.cuPendings.items = [] ∧ s.controlBus.inside = [] := by
+  simp only [runners, BufferedBus.inside, List.append_eq_nil_iff, List.map_eq_nil_iff] at h
+  exact ⟨h.1.1.1, h.1.1.2, h.1.2, by simp only [BufferedBus.inside, h.2.1, h.2.2, List.map_nil, List.append_nil]⟩
+
 /-- one execute unit: nothing to do, or the next step of the unpipelined machine, or its defined error, or its `ret`,
-or a taken branch that flushes -/
-theorem euCycle_sim (app : App) (hp : ProgG app) (s s' : State) (a : Arch) (i : Nat) (out : EuOut)
+or a taken branch or jump that flushes -/
+theorem euCycle_sim (app : App) (hp : ProgJ app) (s s' : State) (a : Arch) (i : Nat) (out : EuOut) (hT : TgtOk app a)
     (hm : Mid app s a i) (hi : i < s.eus.length) (h : euCycle app s i = .ok (s', out)) :
     (out = .none ∧ ∃ a', (a' = a ∨ ∃ c, stepArch Proofs.Mvp4.dc app a = .next a' c) ∧ Mid app s' a' (i + 1) ∧ EuKeep s s') ∨
     (out = .err ∧ ∃ c, stepArch Proofs.Mvp4.dc app a = .halt .err c) ∨
@@ -211,7 +250,7 @@ theorem euCycle_sim (app : App) (hp : ProgG app) (s s' : State) (a : Arch) (i : 
     obtain ⟨rfl, rfl⟩ := h
     left
     refine ⟨rfl, a, Or.inl rfl, ?_, EuKeep.refl _⟩
-    refine ⟨hm.front, hm.back, hm.eus, Nat.le_succ_of_le hm.wbi, hm.room, hm.stamps, hm.wbl, ?_, hm.retBuf, hm.seqs, ?_⟩
+    refine ⟨hm.front, hm.back, hm.eus, Nat.le_succ_of_le hm.wbi, hm.room, hm.stamps, hm.wbl, ?_, hm.retBuf, hm.seqs, hm.stale, ?_⟩
     · intro _ x hx; simp only [hq] at hx; cases hx
     · rcases hm.k1 with h1 | h1 | h1
       · exact Or.inl h1
@@ -235,7 +274,7 @@ theorem euCycle_sim (app : App) (hp : ProgG app) (s s' : State) (a : Arch) (i : 
       · have := hxok.2; rw [List.getElem?_eq_none h'] at this; cases this
     have hback := hm.back
     rw [hxin] at hback
-    obtain ⟨hexe, hretc, herr⟩ := hback.executeG hp.small hpc hxok hgx hnfx
+    obtain ⟨hexe, hretc, herr⟩ := hback.executeG hp.small hpc hxok hgx hnfx hT
     -- no `ret` is left in the queue behind `x`
     have hnoret : ∀ y ∈ q, ¬ isRet y := by
       intro y hy hry
@@ -252,13 +291,6 @@ theorem euCycle_sim (app : App) (hp : ProgG app) (s s' : State) (a : Arch) (i : 
     have hcan : s.writeBus.canAdd = true := by
       have := hm.room; rw [hq] at this; simp only [List.length_cons] at this
       simp only [BufferedBus.canAdd, hm.wbl, bne_iff_ne, ne_eq]; omega
-    have hg' := hgx
-    simp only [gInstr, Bool.and_eq_true, Bool.not_eq_true'] at hg'
-    obtain ⟨⟨_, hub⟩, _⟩ := hg'
-    unfold coPrepareRun at h
-    simp only [hcan, Bool.not_true, Bool.false_eq_true, if_false, buAssert, hub, g_memoryRead app x.instr hgx,
-      List.isEmpty_nil, Bool.not_true] at h
-    unfold coRun at h
     have heus' : ∀ eu' ∈ s.eus.set i { co := .none, memory := [], runner := some x }, eu'.co = .none ∧ eu'.memory = [] := by
       intro eu' hmem'
       rcases List.mem_or_eq_of_mem_set hmem' with h1 | h1
@@ -266,17 +298,26 @@ theorem euCycle_sim (app : App) (hp : ProgG app) (s s' : State) (a : Arch) (i : 
       · subst h1; exact ⟨rfl, rfl⟩
     have hrunS : runners { s with executeBus := { s.executeBus with queue := q } } ⊆ runners s := by
       rw [hrun]; exact fun r hr => List.mem_cons_of_mem _ hr
-    -- `Mid` after a step that does not flush: the architectural pc is the next instruction's
     have hsm := hp.small
-    have hmid : ∀ (e : Gen.Execution) (a' : Arch) (bu : BranchUnit), a'.pc = pcOf (n0 + 1) →
+    -- something executes: the results on the write bus are older than the architectural pc
+    have hwlt : ¬ NoCond app → s.ctx.sequenceID = 0 → Wlt s a := by
+      intro hnc h0
+      rcases hm.stale hnc h0 with h1 | h1 | h1
+      · exact h1
+      · have := h1.1; rw [hxin] at this; cases this
+      · rw [hrun] at h1; cases h1
+    -- `Mid` after a step that does not flush, given the front and the state of the write bus
+    have hmidG : ∀ (e : Gen.Execution) (a' : Arch) (n' : Nat) (bu : BranchUnit) (fu : FetchUnit) (du : DecodeUnit), a'.pc = pcOf n' →
         Back s.ctx (s.writeBus.inside ++ [ecOf x e]) ({ s.executeBus with queue := q } : BufferedBus Runner).inside a' →
-        Mid app (afterExec s i x q bu e) a' (i + 1) := by
-      intro e a' bu hpc' hback'
-      unfold afterExec
-      refine ⟨⟨n0 + 1, hpc', ?_⟩, ?_, heus', ?_, ?_, ?_, hm.wbl, ?_, ?_, ?_, ?_⟩
+        FrontJ app (afterExec s i x q bu e fu du) n' →
+        (¬ NoCond app → s.ctx.sequenceID = 0 →
+          Wlt (afterExec s i x q bu e fu du) a' ∨ runners (afterExec s i x q bu e fu du) = []) →
+        Mid app (afterExec s i x q bu e fu du) a' (i + 1) := by
+      intro e a' n' bu fu du hpc' hback' hfr hst
+      refine ⟨⟨n', hpc', hfr⟩, ?_, heus', ?_, ?_, ?_, hm.wbl, ?_, ?_, ?_, ?_, ?_⟩
       rotate_right
       · rcases hm.k1 with h1 | h1 | h1
-        · exact Or.inl (by simp only [List.length_set]; exact h1)
+        · exact Or.inl (by simp only [afterExec, List.length_set]; exact h1)
         · exact Or.inr (Or.inl h1)
         · refine Or.inr (Or.inr ⟨?_, ?_, h1.due, h1.len, h1.br, h1.bl⟩)
           · intro y hy hby
@@ -291,136 +332,254 @@ theorem euCycle_sim (app : App) (hp : ProgG app) (s s' : State) (a : Arch) (i : 
             rcases h1.drain with hd | hd
             · rw [hq] at hd; cases hd
             · rw [hq] at hd; simp only [List.length_cons] at hd; omega
-      · have hlen : (runners s).length = (runners { s with executeBus := { s.executeBus with queue := q } }).length + 1 := by
-          rw [hrun]; simp only [List.length_cons]
-        refine ⟨hchain', ?_, ?_, hf.clean, hf.dlen, hf.duOk⟩
-        · have := hf.inRange; rw [hlen] at this
-          simp only [runners] at this ⊢; omega
-        · have := hf.pcs; rw [hlen] at this
-          have e1 : n0 + 1 + (runners { s with executeBus := { s.executeBus with queue := q } }).length =
-              n0 + ((runners { s with executeBus := { s.executeBus with queue := q } }).length + 1) := by omega
-          simp only [runners] at this e1 ⊢
-          rw [e1]; exact this
-      · simp only [inside_add]; exact hback'
-      · simp only [BufferedBus.add, List.length_append, List.length_cons, List.length_nil]; have := hm.wbi; omega
-      · simp only [BufferedBus.add, List.length_append, List.length_cons, List.length_nil]
+      · simp only [afterExec, inside_add]; exact hback'
+      · simp only [afterExec, BufferedBus.add, List.length_append, List.length_cons, List.length_nil]; have := hm.wbi; omega
+      · simp only [afterExec, BufferedBus.add, List.length_append, List.length_cons, List.length_nil]
         have := hm.room; rw [hq] at this; simp only [List.length_cons] at this; omega
       · intro en hen
-        simp only [BufferedBus.add, List.mem_append, List.mem_singleton] at hen
+        simp only [afterExec, BufferedBus.add, List.mem_append, List.mem_singleton] at hen
         rcases hen with hen | hen
         · exact hm.stamps en hen
         · subst hen; exact Int.le_refl _
       · intro _ y hy hry; exact absurd hry (hnoret y hy)
       · intro en hen hre; exact absurd hre (hnobuf en hen)
-      · refine ⟨hm.seqs.sid, fun hnc h0 r hr => hm.seqs.rseq hnc h0 r (hrunS hr), ?_⟩
-        intro hnc h0 ec hec
-        simp only [inside_add] at hec
-        rw [hpc']
+      · exact ⟨hm.seqs.sid, fun hnc h0 r hr => hm.seqs.rseq hnc h0 r (hrunS hr)⟩
+      · intro hnc h0
+        rcases hst hnc h0 with h1 | h1
+        · exact Or.inl h1
+        · exact Or.inr (Or.inr h1)
+    -- the write bus after a step to a greater pc
+    have hwltN : ∀ (e : Gen.Execution) (a' : Arch) (bu : BranchUnit) (fu : FetchUnit) (du : DecodeUnit), a'.pc = pcOf (n0 + 1) →
+        ¬ NoCond app → s.ctx.sequenceID = 0 → Wlt (afterExec s i x q bu e fu du) a' := by
+      intro e a' bu fu du hpc' hnc h0 ec hec
+      simp only [afterExec, inside_add] at hec
+      rw [hpc']
+      rcases List.mem_append.mp hec with hec | hec
+      · have := hwlt hnc h0 ec hec
+        rw [hpc] at this
+        have := pcOf_lt n0 (n0 + 1) (by omega) (by omega)
+        omega
+      · simp only [List.mem_singleton] at hec; subst hec
+        have h1 := hm.seqs.rseq hnc h0 x (by rw [hrun]; exact List.mem_cons_self)
+        simp only [ecOf, h1, hxok.1]
+        exact pcOf_lt n0 (n0 + 1) (by omega) (by omega)
+    have hkeep : ∀ (e : Gen.Execution) (bu : BranchUnit) (fu : FetchUnit) (du : DecodeUnit), EuKeep s (afterExec s i x q bu e fu du) :=
+      fun e bu fu du =>
+      ⟨rfl, rfl, by simp only [afterExec, List.length_set], rfl, rfl, rfl, rfl, rfl, rfl,
+       by simp only [afterExec, hq, List.length_cons]; omega, rfl, rfl, rfl, rfl⟩
+    -- a taken branch or jump that flushes
+    have hflush : ∀ (e : Gen.Execution) (a' : Arch) (n' : Nat) (bu : BranchUnit) (fu : FetchUnit) (du : DecodeUnit),
+        a'.pc = pcOf n' → n' ≤ app.instrs.length →
+        Back s.ctx (s.writeBus.inside ++ [ecOf x e]) ({ s.executeBus with queue := q } : BufferedBus Runner).inside a' →
+        x.instr.instructionType.IsBranch = true → (NoJmp app → fu.toCleanPending = false) →
+        FlushNow app s (afterExec s i x q bu e fu du) a' x.pc ∧
+          (WideM s i → ∀ y ∈ (afterExec s i x q bu e fu du).executeBus.queue, ¬ isBr y) := by
+      intro e a' n' bu fu du hpc' hn'le hbk hbr hpl
+      have hncond : ¬ NoCond app := by
+        intro hnc
+        simp only [NoCond, List.all_eq_true, Bool.not_eq_true'] at hnc
+        have := hnc x.instr hxmem
+        rw [hbr] at this; cases this
+      have h0 : s.ctx.sequenceID = 0 := by
+        rcases hm.seqs.sid with h0 | h0
+        · exact h0
+        · exact absurd h0 hncond
+      have hallKept : ∀ ec ∈ s.writeBus.inside ++ [ecOf x e], kept x.pc ec = true := by
+        intro ec hec
+        simp only [kept, Bool.not_eq_true', Bool.and_eq_false_iff]
+        right
+        simp only [BitVec.slt, decide_eq_false_iff_not, Int.not_lt]
         rcases List.mem_append.mp hec with hec | hec
-        · have := hm.seqs.wseq hnc h0 ec hec
-          rw [hpc] at this
-          have := pcOf_lt n0 (n0 + 1) (by omega) (by omega)
+        · have := hwlt hncond h0 ec hec
+          rw [hpc, ← hxok.1] at this
           omega
         · simp only [List.mem_singleton] at hec; subst hec
-          have h1 := hm.seqs.rseq hnc h0 x (by rw [hrun]; exact List.mem_cons_self)
-          simp only [ecOf, h1, hxok.1]
-          exact pcOf_lt n0 (n0 + 1) (by omega) (by omega)
-    simp only [hmem, setEu, ite_pair_snd, ite_pair_fst] at h
-    cases hr : x.instr.run s.ctx app.labels x.pc [] 0#32 with
-    | error f =>
-      cases f with
-      | panic w => simp only [hr] at h; cases h
-      | err msg =>
-        simp only [hr, pure, Except.pure, Except.ok.injEq, Prod.mk.injEq] at h
-        obtain ⟨_, rfl⟩ := h
-        right; left; exact ⟨rfl, herr msg hr⟩
-    | ok e =>
-      cases hret : e.Return with
-      | true =>
-        obtain ⟨hhalt, hty⟩ := hretc e hr hret
-        simp only [hr, hret, if_true, pure, Except.pure, Except.ok.injEq, Prod.mk.injEq] at h
-        obtain ⟨rfl, rfl⟩ := h
-        right; right; left
-        have hq0 : q = [] := by
-          have := (hm.retQ hK x (by rw [hq]; exact List.mem_cons_self) hty).1
-          rw [hq] at this
-          simp only [List.cons.injEq, true_and] at this
-          exact this
-        subst hq0
-        exact ⟨rfl, hhalt, hback.dropHead, rfl, heus', ⟨rfl, rfl, by simp only [List.length_set], rfl, rfl, rfl, rfl, rfl, rfl,
-          by simp only [hq, List.length_cons, List.length_nil]; omega, rfl, rfl, rfl, rfl, rfl⟩⟩
-      | false =>
-        obtain ⟨a', n', hstep, hpc', hn'le, hback', hmc, hnf1, hnf2⟩ := hexe e hr hret
-        simp only [hr, hret, hmc, Bool.false_eq_true, if_false, bind, Except.bind, pure, Except.pure, hub] at h
-        have hkeep : ∀ bu : BranchUnit, EuKeep s (afterExec s i x q bu e) := fun bu =>
-          ⟨rfl, rfl, by simp only [afterExec, List.length_set], rfl, rfl, rfl, rfl, rfl, rfl,
-           by simp only [afterExec, hq, List.length_cons]; omega, rfl, rfl, rfl, rfl, rfl⟩
-        cases hpcc : e.PcChange with
-        | false =>
-          have hn' := hnf1 hpcc
-          subst hn'
-          simp only [hpcc, Bool.false_eq_true, if_false, Except.ok.injEq, Prod.mk.injEq] at h
-          obtain ⟨rfl, rfl⟩ := h
-          left
-          split
-          all_goals exact ⟨rfl, a', Or.inr hstep, hmid e a' _ hpc' hback', hkeep _⟩
+          have h1 := hm.seqs.rseq hncond h0 x (by rw [hrun]; exact List.mem_cons_self)
+          simp only [ecOf, h1]; exact Int.le_refl _
+      refine ⟨?_, ?_⟩
+      · refine ⟨?_, ?_, ?_, hbk.mem, hbk.ratS, hbk.txS, hbk.ratA, hbk.txA, ⟨n', hpc', hn'le⟩, heus', hkeep _ _ _ _, hncond, hK, ?_, hm.wbl,
+          ⟨n0, n0 + 1, hxok.1, Nat.lt_succ_self _, hchain'⟩, fun r hr => hm.seqs.rseq hncond h0 r (hrunS hr),
+          fun y hy => hnoret y hy, h0, hpl⟩
+        · show applyW ((s.writeBus.add (ecOf x e) s.cycles).inside.filter (kept x.pc)) s.ctx.Registers = a'.ctx.Registers
+          rw [inside_add, List.filter_eq_self.mpr hallKept]; exact hbk.regs.symm
+        · show ∀ ec ∈ (s.writeBus.add (ecOf x e) s.cycles).inside, ec.execution.MemoryChange = false
+          rw [inside_add]; exact hbk.nomem
+        · intro ec hec
+          exact hallKept ec (List.mem_append_left _ (by simp only [BufferedBus.inside]; exact List.mem_append_left _ hec))
+        · show (s.writeBus.add (ecOf x e) s.cycles).buffer.length + q.length ≤ 2
+          simp only [BufferedBus.add, List.length_append, List.length_cons, List.length_nil]
+          have := hm.room; rw [hq] at this; simp only [List.length_cons] at this; omega
+      · intro hw y hy hby
+        obtain ⟨_, q', hq', hnb⟩ := hw.brq x (by rw [hq]; exact List.mem_cons_self) hbr
+        rw [hq] at hq'
+        simp only [List.cons.injEq, true_and] at hq'
+        subst hq'
+        exact hnb y hy hby
+    cases hub : x.instr.instructionType.IsUnconditionalBranch with
+    | false =>
+      -- the front after a step of an instruction that is not a jump
+      have hfrontN : ∀ (e : Gen.Execution) (bu : BranchUnit), FrontJ app (afterExec s i x q bu e s.fu s.du) (n0 + 1) := by
+        intro e bu
+        have hlen : (runners s).length = (runners { s with executeBus := { s.executeBus with queue := q } }).length + 1 := by
+          rw [hrun]; simp only [List.length_cons]
+        refine ⟨hchain', ?_, hf.dlen, ?_, ?_, hf.plain⟩
+        · have := hf.inRange; rw [hlen] at this
+          simp only [afterExec, runners] at this ⊢; omega
+        · intro hpd
+          obtain ⟨h1, h2⟩ := hf.opn hpd
+          refine ⟨?_, fun r hr => h2 r (hrunS hr)⟩
+          rw [hlen] at h1
+          have e1 : n0 + 1 + (runners { s with executeBus := { s.executeBus with queue := q } }).length =
+              n0 + ((runners { s with executeBus := { s.executeBus with queue := q } }).length + 1) := by omega
+          simp only [afterExec, runners] at h1 e1 ⊢
+          rw [e1]; exact h1
+        · intro hpd
+          obtain ⟨pre, j, hpj, hjj, hpre⟩ := hf.clo hpd
+          rw [hrun] at hpj
+          cases pre with
+          | nil =>
+            simp only [List.nil_append, List.cons.injEq] at hpj
+            obtain ⟨rfl, _⟩ := hpj
+            simp only [isJ, hub] at hjj; cases hjj
+          | cons p ps =>
+            simp only [List.cons_append, List.cons.injEq] at hpj
+            exact ⟨ps, j, hpj.2, hjj, fun r hr => hpre r (List.mem_cons_of_mem _ hr)⟩
+      have hmid : ∀ (e : Gen.Execution) (a' : Arch) (bu : BranchUnit), a'.pc = pcOf (n0 + 1) →
+          Back s.ctx (s.writeBus.inside ++ [ecOf x e]) ({ s.executeBus with queue := q } : BufferedBus Runner).inside a' →
+          Mid app (afterExec s i x q bu e s.fu s.du) a' (i + 1) := fun e a' bu hpc' hback' =>
+        hmidG e a' (n0 + 1) bu s.fu s.du hpc' hback' (hfrontN e bu) (fun hnc h0 => Or.inl (hwltN e a' bu s.fu s.du hpc' hnc h0))
+      unfold coPrepareRun at h
+      simp only [hcan, Bool.not_true, Bool.false_eq_true, if_false, buAssert, hub, g_memoryRead app x.instr hgx,
+        List.isEmpty_nil, Bool.not_true] at h
+      unfold coRun at h
+      simp only [hmem, setEu, ite_pair_snd, ite_pair_fst] at h
+      cases hr : x.instr.run s.ctx app.labels x.pc [] 0#32 with
+      | error f =>
+        cases f with
+        | panic w => simp only [hr] at h; cases h
+        | err msg =>
+          simp only [hr, pure, Except.pure, Except.ok.injEq, Prod.mk.injEq] at h
+          obtain ⟨_, rfl⟩ := h
+          right; left; exact ⟨rfl, herr msg hr⟩
+      | ok e =>
+        cases hret : e.Return with
         | true =>
-          obtain ⟨hnext, hcb⟩ := hnf2 hpcc
-          simp only [hpcc, hcb, if_true, buShouldFlush, Bool.not_true, Bool.false_eq_true, if_false, Except.ok.injEq,
-            Prod.mk.injEq] at h
+          obtain ⟨hhalt, hty⟩ := hretc e hr hret
+          simp only [hr, hret, if_true, pure, Except.pure, Except.ok.injEq, Prod.mk.injEq] at h
           obtain ⟨rfl, rfl⟩ := h
-          by_cases hfl : (x.pc + 4#32 != e.NextPc) = true
-          · -- the branch is taken to somewhere else: flush
-            right; right; right
-            simp only [hfl, if_true]
-            have hncond : ¬ NoCond app := by
-              intro hnc
-              simp only [NoCond, List.all_eq_true, Bool.not_eq_true'] at hnc
-              have := hnc x.instr hxmem
-              rw [hcb] at this; cases this
-            have h0 : s.ctx.sequenceID = 0 := by
-              rcases hm.seqs.sid with h0 | h0
-              · exact h0
-              · exact absurd h0 hncond
-            have hallKept : ∀ ec ∈ s.writeBus.inside ++ [ecOf x e], kept x.pc ec = true := by
-              intro ec hec
-              simp only [kept, Bool.not_eq_true', Bool.and_eq_false_iff]
-              right
-              simp only [BitVec.slt, decide_eq_false_iff_not, Int.not_lt]
-              rcases List.mem_append.mp hec with hec | hec
-              · have := hm.seqs.wseq hncond h0 ec hec
-                rw [hpc, ← hxok.1] at this
-                omega
-              · simp only [List.mem_singleton] at hec; subst hec
-                have h1 := hm.seqs.rseq hncond h0 x (by rw [hrun]; exact List.mem_cons_self)
-                simp only [ecOf, h1]; exact Int.le_refl _
-            have hbk : Back s.ctx (s.writeBus.inside ++ [ecOf x e]) ({ s.executeBus with queue := q } : BufferedBus Runner).inside a' := hback'
-            refine ⟨a', x.pc, by rw [hpc', hnext], hstep, ?_, ?_⟩
-            · refine ⟨?_, ?_, ?_, hbk.mem, hbk.ratS, hbk.txS, hbk.ratA, hbk.txA, ⟨n', hpc', hn'le⟩, heus', hkeep _, hncond, hK, ?_, hm.wbl,
-                ⟨n0, n0 + 1, hxok.1, Nat.lt_succ_self _, hchain'⟩, fun r hr => hm.seqs.rseq hncond h0 r (hrunS hr),
-                fun y hy => hnoret y hy, h0⟩
-              · show applyW ((s.writeBus.add (ecOf x e) s.cycles).inside.filter (kept x.pc)) s.ctx.Registers = a'.ctx.Registers
-                rw [inside_add, List.filter_eq_self.mpr hallKept]; exact hbk.regs.symm
-              · show ∀ ec ∈ (s.writeBus.add (ecOf x e) s.cycles).inside, ec.execution.MemoryChange = false
-                rw [inside_add]; exact hbk.nomem
-              · intro ec hec
-                exact hallKept ec (List.mem_append_left _ (by simp only [BufferedBus.inside]; exact List.mem_append_left _ hec))
-              · show (s.writeBus.add (ecOf x e) s.cycles).buffer.length + q.length ≤ 2
-                simp only [BufferedBus.add, List.length_append, List.length_cons, List.length_nil]
-                have := hm.room; rw [hq] at this; simp only [List.length_cons] at this; omega
-            · intro hw y hy hby
-              obtain ⟨_, q', hq', hnb⟩ := hw.brq x (by rw [hq]; exact List.mem_cons_self) (by
-                show x.instr.instructionType.IsBranch = true
-                simp only [Gen.InstructionType.IsBranch, hcb, Bool.or_true])
-              rw [hq] at hq'
-              simp only [List.cons.injEq, true_and] at hq'
-              subst hq'
-              exact hnb y hy hby
-          · -- the branch is taken to the next instruction: no flush
-            have heq : x.pc + 4#32 = e.NextPc := by simpa using hfl
+          right; right; left
+          have hq0 : q = [] := by
+            have := (hm.retQ hK x (by rw [hq]; exact List.mem_cons_self) hty).1
+            rw [hq] at this
+            simp only [List.cons.injEq, true_and] at this
+            exact this
+          subst hq0
+          exact ⟨rfl, hhalt, hback.dropHead, rfl, heus', ⟨rfl, rfl, by simp only [List.length_set], rfl, rfl, rfl, rfl, rfl, rfl,
+            by simp only [hq, List.length_cons, List.length_nil]; omega, rfl, rfl, rfl, rfl⟩⟩
+        | false =>
+          obtain ⟨a', n', hstep, hpc', hn'le, hback', hmc, hnf1, hnf2⟩ := hexe e hr hret
+          simp only [hr, hret, hmc, Bool.false_eq_true, if_false, bind, Except.bind, pure, Except.pure, hub] at h
+          cases hpcc : e.PcChange with
+          | false =>
+            have hn' := hnf1 hpcc
+            subst hn'
+            simp only [hpcc, Bool.false_eq_true, if_false, Except.ok.injEq, Prod.mk.injEq] at h
+            obtain ⟨rfl, rfl⟩ := h
             left
-            have hpc'' : a'.pc = pcOf (n0 + 1) := by rw [hpc', ← hnext, ← heq, hxok.1, pcOf_succ]
-            exact ⟨by simp only [hfl, Bool.false_eq_true, if_false], a', Or.inr hstep, hmid e a' _ hpc'' hback', hkeep _⟩
+            split
+            all_goals exact ⟨rfl, a', Or.inr hstep, hmid e a' _ hpc' hback', hkeep _ _ _ _⟩
+          | true =>
+            obtain ⟨hnext, hbr⟩ := hnf2 hpcc
+            have hcb : x.instr.instructionType.IsConditionalBranch = true := by
+              simpa only [Gen.InstructionType.IsBranch, hub, Bool.false_or] using hbr
+            simp only [hpcc, hcb, if_true, buShouldFlush, Bool.not_true, Bool.false_eq_true, if_false, Except.ok.injEq,
+              Prod.mk.injEq] at h
+            obtain ⟨rfl, rfl⟩ := h
+            by_cases hfl : (x.pc + 4#32 != e.NextPc) = true
+            · -- the branch is taken to somewhere else: flush
+              right; right; right
+              simp only [hfl, if_true]
+              obtain ⟨f1, f2⟩ := hflush e a' n' _ s.fu s.du hpc' hn'le hback' hbr (fun hn => (hf.plain hn).1)
+              exact ⟨a', x.pc, by rw [hpc', hnext], hstep, f1, f2⟩
+            · -- the branch is taken to the next instruction: no flush
+              have heq : x.pc + 4#32 = e.NextPc := by simpa using hfl
+              left
+              have hpc'' : a'.pc = pcOf (n0 + 1) := by rw [hpc', ← hnext, ← heq, hxok.1, pcOf_succ]
+              exact ⟨by simp only [hfl, Bool.false_eq_true, if_false], a', Or.inr hstep, hmid e a' _ hpc'' hback', hkeep _ _ _ _⟩
+    | true =>
+      -- a jump: the youngest runner; the branch unit has a prediction or not
+      obtain ⟨bu1, fu1, hbf, htc, hfu1⟩ := buAssert_jump s.bu s.fu x hub
+      have hpend : s.du.pendingBranchResolution = true := by
+        cases hpd : s.du.pendingBranchResolution with
+        | true => rfl
+        | false =>
+          have := (hf.opn hpd).2 x (by rw [hrun]; exact List.mem_cons_self)
+          simp only [isJ, hub] at this; cases this
+      have hrest : runners { s with executeBus := { s.executeBus with queue := q } } = [] := by
+        obtain ⟨pre, j, hpj, hjj, hpre⟩ := hf.clo hpend
+        rw [hrun] at hpj
+        cases pre with
+        | nil =>
+          simp only [List.nil_append, List.cons.injEq] at hpj
+          exact hpj.2
+        | cons p ps =>
+          simp only [List.cons_append, List.cons.injEq] at hpj
+          obtain ⟨rfl, _⟩ := hpj
+          have := hpre x List.mem_cons_self
+          simp only [isJ, hub] at this; cases this
+      have hnj : ¬ NoJmp app := by
+        intro hn
+        simp only [NoJmp, List.all_eq_true, Bool.not_eq_true'] at hn
+        have := hn x.instr hxmem
+        rw [hub] at this; cases this
+      have hbrx : x.instr.instructionType.IsBranch = true := by
+        simp only [Gen.InstructionType.IsBranch, hub, Bool.true_or]
+      unfold coPrepareRun at h
+      simp only [hcan, Bool.not_true, Bool.false_eq_true, if_false, hbf, g_memoryRead app x.instr hgx,
+        List.isEmpty_nil, Bool.not_true] at h
+      unfold coRun at h
+      simp only [hmem, setEu, ite_pair_snd, ite_pair_fst] at h
+      cases hr : x.instr.run s.ctx app.labels x.pc [] 0#32 with
+      | error f =>
+        cases f with
+        | panic w => simp only [hr] at h; cases h
+        | err msg =>
+          simp only [hr, pure, Except.pure, Except.ok.injEq, Prod.mk.injEq] at h
+          obtain ⟨_, rfl⟩ := h
+          right; left; exact ⟨rfl, herr msg hr⟩
+      | ok e =>
+        obtain ⟨hpcc, hret⟩ := jump_run app.labels x.instr hub s.ctx x.pc [] 0#32 e hr
+        obtain ⟨a', n', hstep, hpc', hn'le, hback', hmc, hnf1, hnf2⟩ := hexe e hr hret
+        obtain ⟨hnext, _⟩ := hnf2 hpcc
+        simp only [hr, hret, hmc, hpcc, hub, htc, hfu1, Bool.false_eq_true, if_false, if_true, bind, Except.bind, pure, Except.pure,
+          buShouldFlush, Bool.not_true, Except.ok.injEq, Prod.mk.injEq] at h
+        obtain ⟨rfl, rfl⟩ := h
+        by_cases hfl : (bu1.expectation != e.NextPc) = true
+        · -- no prediction, or a wrong one: flush
+          right; right; right
+          simp only [hfl, if_true]
+          obtain ⟨f1, f2⟩ := hflush e a' n' { bu1 with btb := btbAdd bu1.btb x.pc e.NextPc, toCheck := false }
+            (s.fu.reset e.NextPc true) { s.du with pendingBranchResolution := false } hpc' hn'le hback' hbrx (fun hn => absurd hn hnj)
+          exact ⟨a', x.pc, by rw [hpc', hnext], hstep, f1, f2⟩
+        · -- the prediction was right: fetch has been redirected, nothing is flushed
+          left
+          have hfr : FrontJ app (afterExec s i x q { bu1 with btb := btbAdd bu1.btb x.pc e.NextPc, toCheck := false } e
+              (s.fu.reset e.NextPc true) { s.du with pendingBranchResolution := false }) n' := by
+            have hrn : runners (afterExec s i x q { bu1 with btb := btbAdd bu1.btb x.pc e.NextPc, toCheck := false } e
+                (s.fu.reset e.NextPc true) { s.du with pendingBranchResolution := false }) = [] := hrest
+            refine ⟨by rw [hrn]; trivial, by rw [hrn]; exact hn'le, hf.dlen, ?_, ?_, fun hn => absurd hn hnj⟩
+            · intro _
+              rw [hrn]
+              refine ⟨⟨n', ?_, ?_, Or.inl rfl, ?_, ?_, ?_, ?_⟩, fun r hr => by cases hr⟩
+              · show PcChain n' (effD _); simp only [effD, afterExec, FetchUnit.reset, if_true]; trivial
+              · simp only [effD, afterExec, FetchUnit.reset, if_true, List.length_nil, Nat.add_zero]; exact hnext
+              · simp only [effD, afterExec, FetchUnit.reset, if_true, List.length_nil, Nat.add_zero]; omega
+              · intro _; simp only [effD, afterExec, FetchUnit.reset, if_true, List.length_nil, Nat.add_zero]; exact hn'le
+              · intro hc; simp only [afterExec, FetchUnit.reset] at hc; cases hc
+              · intro _ hn; exact absurd hn hnj
+            · intro hc; simp only [afterExec] at hc; cases hc
+          refine ⟨by simp only [hfl, Bool.false_eq_true, if_false], a', Or.inr hstep,
+            hmidG e a' n' _ _ _ hpc' hback' hfr (fun _ _ => Or.inr hrest), hkeep _ _ _ _⟩
 
 /-- once the execute bus queue is empty the remaining execute units find nothing -/
 theorem eus_noop (app : App) : ∀ (n i : Nat) (s : State) (acc : EuAcc), i + n = s.eus.length →
@@ -449,7 +608,7 @@ theorem pcOf_ne_m1 (n : Nat) (h : n < 2 ^ 20) : (pcOf n != BitVec.ofInt 32 (-1))
 
 /-- an execute unit that runs after the flushing one: it finds nothing, or it executes a wrong-path runner whose result
 will not be kept -/
-theorem euCycle_wrong (app : App) (hp : ProgG app) (s0 s s' : State) (a' : Arch) (from_ : Word) (i : Nat) (out : EuOut)
+theorem euCycle_wrong (app : App) (hp : ProgJ app) (s0 s s' : State) (a' : Arch) (from_ : Word) (i : Nat) (out : EuOut)
     (hf : FlushNow app s0 s a' from_) (hnb : ∀ y ∈ s.executeBus.queue, ¬ isBr y) (hi : i < s.eus.length)
     (h : euCycle app s i = .ok (s', out)) :
     out = .none ∧ FlushNow app s0 s' a' from_ ∧ (∀ y ∈ s'.executeBus.queue, ¬ isBr y) := by
@@ -477,7 +636,7 @@ theorem euCycle_wrong (app : App) (hp : ProgG app) (s0 s s' : State) (a' : Arch)
       · have := hxok.2; rw [List.getElem?_eq_none h'] at this; cases this
     have hndr : isDivRem x.instr.instructionType = false := by
       have hc := hp.cls
-      simp only [ProvedClass, Bool.and_eq_true, Bool.or_eq_true, List.all_eq_true, Bool.not_eq_true'] at hc
+      simp only [JClass, Bool.and_eq_true, Bool.or_eq_true, List.all_eq_true, Bool.not_eq_true'] at hc
       rcases hc.2 with h1 | h1
       · exact h1 x.instr hxmem
       · exact absurd (by simp only [NoCond, List.all_eq_true, Bool.not_eq_true']; exact h1) hf.cond
@@ -505,7 +664,7 @@ theorem euCycle_wrong (app : App) (hp : ProgG app) (s0 s s' : State) (a' : Arch)
     have hpc' : e.PcChange = false := by
       cases hr : e.PcChange with
       | false => rfl
-      | true => have := (hpcc hr).1; rw [hcb] at this; cases this
+      | true => have := (hpcc hr).1; rw [hxnb] at this; cases this
     simp only [he, hret', hmc, hpc', Bool.false_eq_true, if_false, bind, Except.bind, pure, Except.pure, hub,
       Except.ok.injEq, Prod.mk.injEq] at h
     obtain ⟨rfl, rfl⟩ := h
@@ -519,7 +678,7 @@ theorem euCycle_wrong (app : App) (hp : ProgG app) (s0 s s' : State) (a' : Arch)
     refine ⟨rfl, ?_, fun y hy => hnb y (by rw [hq]; exact List.mem_cons_of_mem _ hy)⟩
     refine ⟨?_, ?_, hf.qKept, hf.mem, hf.ratS, hf.txS, hf.ratA, hf.txA, hf.npc, ?_, ?_, hf.cond, hf.k, ?_, hf.wbl,
       ⟨nb, m + 1, hfrom, by omega, hchain'⟩, fun r hr => hf.rseq r (hrunS hr),
-      fun y hy => hf.noRet y (by rw [hq]; exact List.mem_cons_of_mem _ hy), hf.sid0⟩
+      fun y hy => hf.noRet y (by rw [hq]; exact List.mem_cons_of_mem _ hy), hf.sid0, hf.plain⟩
     · show applyW ((s.writeBus.add (ecOf x e) s.cycles).inside.filter (kept from_)) s.ctx.Registers = a'.ctx.Registers
       rw [inside_add, List.filter_append]
       simp only [List.filter_cons, hnk, Bool.false_eq_true, if_false, List.filter_nil, List.append_nil]
@@ -535,7 +694,7 @@ theorem euCycle_wrong (app : App) (hp : ProgG app) (s0 s s' : State) (a' : Arch)
       · exact hf.eus eu' h1
       · subst h1; exact ⟨rfl, rfl⟩
     · exact hf.keep.trans ⟨rfl, rfl, by simp only [List.length_set], rfl, rfl, rfl, rfl, rfl, rfl,
-        by simp only [hq, List.length_cons]; omega, rfl, rfl, rfl, rfl, rfl⟩
+        by simp only [hq, List.length_cons]; omega, rfl, rfl, rfl, rfl⟩
     · show (s.writeBus.add (ecOf x e) s.cycles).buffer.length + q.length ≤ 2
       simp only [BufferedBus.add, List.length_append, List.length_cons, List.length_nil]
       have := hf.room; rw [hq] at this; simp only [List.length_cons] at this; omega
@@ -543,10 +702,10 @@ theorem euCycle_wrong (app : App) (hp : ProgG app) (s0 s s' : State) (a' : Arch)
 theorem FlushNow.pre {app : App} {s0 s s' : State} {a' : Arch} {from_ : Word} (h : FlushNow app s s' a' from_)
     (hk : EuKeep s0 s) : FlushNow app s0 s' a' from_ :=
   ⟨h.regsT, h.nomem, h.qKept, h.mem, h.ratS, h.txS, h.ratA, h.txA, h.npc, h.eus, hk.trans h.keep, h.cond,
-   by rw [← hk.eul]; exact h.k, h.room, h.wbl, h.chain, h.rseq, h.noRet, h.sid0⟩
+   by rw [← hk.eul]; exact h.k, h.room, h.wbl, h.chain, h.rseq, h.noRet, h.sid0, h.plain⟩
 
 /-- the execute units behind the flushing one -/
-theorem eus_wrong (app : App) (hp : ProgG app) (s0 : State) (a' : Arch) (from_ : Word) : ∀ (n i : Nat) (s s' : State) (acc acc' : EuAcc),
+theorem eus_wrong (app : App) (hp : ProgJ app) (s0 : State) (a' : Arch) (from_ : Word) : ∀ (n i : Nat) (s s' : State) (acc acc' : EuAcc),
     i + n = s.eus.length → FlushNow app s0 s a' from_ → (∀ y ∈ s.executeBus.queue, ¬ isBr y) →
     eusCycle app n i s acc = .ok (s', acc') → acc' = acc ∧ FlushNow app s0 s' a' from_ := by
   intro n
@@ -579,7 +738,8 @@ theorem max_zero_pcOf (n : Nat) (h : n < 2 ^ 20) : (if BitVec.slt (0 : Word) (pc
     simp only [this, if_true]
 
 /-- the loop over the execute units -/
-theorem eusCycle_sim (app : App) (hp : ProgG app) (a0 : Arch) : ∀ (n i : Nat) (s s' : State) (acc acc' : EuAcc) (k : Nat) (a : Arch),
+theorem eusCycle_sim (app : App) (hp : ProgJ app) (a0 : Arch) (hT : ∀ k a, Proofs.Mvp4.seqIter app k a0 = some a → TgtOk app a) :
+    ∀ (n i : Nat) (s s' : State) (acc acc' : EuAcc) (k : Nat) (a : Arch),
     i + n = s.eus.length → Mid app s a i → Proofs.Mvp4.seqIter app k a0 = some a →
     acc = {} → eusCycle app n i s acc = .ok (s', acc') →
     (acc' = {} ∧ ∃ k' a', Proofs.Mvp4.seqIter app k' a0 = some a' ∧ Mid app s' a' (i + n) ∧ EuKeep s s') ∨
@@ -601,7 +761,7 @@ theorem eusCycle_sim (app : App) (hp : ProgG app) (a0 : Arch) : ∀ (n i : Nat) 
     · cases h
     · rename_i v hv
       obtain ⟨s1, out⟩ := v
-      rcases euCycle_sim app hp s s1 a i out hm (by omega) hv with
+      rcases euCycle_sim app hp s s1 a i out (hT k a hk) hm (by omega) hv with
         ⟨rfl, a1, hstep, hm1, hk1⟩ | ⟨rfl, c, hc⟩ | ⟨rfl, hret⟩ | ⟨a1, from_, rfl, ⟨c, hc⟩, hfl, hnbw⟩
       · simp only at h
         have hk' : ∃ k1, Proofs.Mvp4.seqIter app k1 a0 = some a1 := by
@@ -675,12 +835,13 @@ theorem WuKeep.trans {a b c : State} (h1 : WuKeep a b) (h2 : WuKeep b c) : WuKee
    h2.mmu.trans h1.mmu, h2.cycles.trans h1.cycles, h2.mode.trans h1.mode, h2.wbuf.trans h1.wbuf, h2.wql.trans h1.wql,
    h2.wbl.trans h1.wbl, h2.sid.trans h1.sid, fun ec h => h1.wsub ec (h2.wsub ec h)⟩
 
-theorem Front.of_eq {app : App} {s s' : State} {n0 : Nat} (h : Front app s n0) (e1 : s'.executeBus = s.executeBus)
+theorem FrontJ.of_eq {app : App} {s s' : State} {n0 : Nat} (h : FrontJ app s n0) (e1 : s'.executeBus = s.executeBus)
     (e2 : s'.cuPendings = s.cuPendings) (e3 : s'.controlBus = s.controlBus) (e4 : s'.fu = s.fu)
-    (e5 : s'.decodeBus = s.decodeBus) (e6 : s'.du = s.du) : Front app s' n0 := by
+    (e5 : s'.decodeBus = s.decodeBus) (e6 : s'.du = s.du) : FrontJ app s' n0 := by
   have hr : runners s' = runners s := by simp only [runners, e1, e2, e3]
-  exact ⟨by rw [hr]; exact h.chain, by rw [hr]; exact h.inRange, by rw [hr, e4, e5]; exact h.pcs, by rw [e4]; exact h.clean,
-    by rw [e5]; exact h.dlen, by rw [e6]; exact h.duOk⟩
+  have he : effD s' = effD s := by simp only [effD, e4, e5]
+  exact ⟨by rw [hr]; exact h.chain, by rw [hr]; exact h.inRange, by rw [e5]; exact h.dlen,
+    by rw [hr, e4, e6, he]; exact h.opn, by rw [hr, e6]; exact h.clo, by rw [e4, e6]; exact h.plain⟩
 
 /-- one write unit (idle, called with `before = -1`): nothing to do, or the oldest result is written -/
 theorem wuCycle_sim (s s' : State) (a : Arch) (j : Nat) (hj : j < s.wus.length) (hidle : ∀ wu ∈ s.wus, wu.co = .none)
@@ -801,7 +962,7 @@ theorem issued_ret {c p : Int} {pushed : List Runner} {x y : Model.Context × Bu
 
 /-- the state between two ticks -/
 structure RelG (app : App) (s : State) (a : Arch) : Prop where
-  front : ∃ n0, a.pc = pcOf n0 ∧ Front app s n0
+  front : ∃ n0, a.pc = pcOf n0 ∧ FrontJ app s n0
   back : Back s.ctx s.writeBus.inside s.executeBus.inside a
   eus : ∀ eu ∈ s.eus, eu.co = .none ∧ eu.memory = []
   wus : ∀ wu ∈ s.wus, wu.co = .none
@@ -822,6 +983,9 @@ structure RelG (app : App) (s : State) (a : Arch) : Prop where
   /-- a `ret` issued in the last cycle is alone on the execute bus and due -/
   retBuf : ∀ e ∈ s.executeBus.buffer, isRet e.2 → s.executeBus.queue = [] ∧ s.executeBus.buffer = [(s.cycles + 1, e.2)]
   seqs : Seqs app s a
+  /-- the results on the write bus are older than the architectural pc, or a correctly predicted jump has executed in the
+  last tick and the pipeline behind the fetch unit is empty -/
+  stale : ¬ NoCond app → s.ctx.sequenceID = 0 → Wlt s a ∨ runners s = []
   k1 : s.eus.length ≤ 1 ∨ NoCond app ∨ WideB s
 
 /-- the state between two ticks of the drain after a `ret` -/
@@ -850,7 +1014,7 @@ structure FFacts (app : App) (s : State) (a' : Arch) (from_ pc : Word) : Prop wh
   xql : s.executeBus.queueLength = 2
   dlen : s.decodeBus.bufferLength = 2
   l1d : s.mmu.l1d.lines = []
-  clean : s.fu.toCleanPending = false
+  clean : NoJmp app → s.fu.toCleanPending = false
   sid : s.ctx.sequenceID = 0 ∨ NoCond app
   k1 : s.eus.length ≤ 1 ∨ NoCond app ∨ s.executeBus.bufferLength = 2
   wk : 1 ≤ s.wus.length
@@ -891,10 +1055,14 @@ theorem flushAll_rel (app : App) (hsm : app.instrs.length < 250) (s : State) (a'
   have hrn : runners { flushAll s pc with cycles := c, mode := .normal, flushes := n } = [] := by
     simp [runners, flushAll, BufferedBus.clean, BufferedBus.inside, Queue.new]
   refine ⟨⟨n', hn', ?_⟩, ?_, ?_, h.inv.wus, rfl, Nat.zero_le _, Nat.zero_le _, ?_, h.wql, h.wbl, h.xql, Nat.zero_le _, ?_, Nat.zero_le _,
-    h.l1d, rfl, ?_, ?_, ?_, ?_⟩
-  · refine ⟨by rw [hrn]; trivial, by rw [hrn]; simp only [List.length_nil, Nat.add_zero]; exact hle, ?_, h.clean, h.dlen, rfl⟩
-    rw [hrn]
-    refine ⟨n', trivial, ?_, Or.inl (by simp), ?_, ?_, ?_, ?_⟩
+    h.l1d, rfl, ?_, ?_, ?_, ?_, ?_⟩
+  · have heff : effD { flushAll s pc with cycles := c, mode := .normal, flushes := n } = [] := by
+      simp only [effD, flushAll, BufferedBus.clean, BufferedBus.inside, List.map_nil, List.append_nil, ite_self]
+    refine ⟨by rw [hrn]; trivial, by rw [hrn]; simp only [List.length_nil, Nat.add_zero]; exact hle, h.dlen, ?_,
+      (fun hc => by cases hc), fun hn => ⟨h.clean hn, rfl⟩⟩
+    intro _
+    rw [hrn, heff]
+    refine ⟨⟨n', trivial, ?_, Or.inl (by simp), ?_, ?_, ?_, ?_⟩, fun r hr => by cases hr⟩
     · show pc = pcOf (n' + 0); rw [h.pceq, hn']; rfl
     · show n' + 0 + 0 ≤ app.instrs.length + 2; omega
     · intro _; show n' + 0 ≤ app.instrs.length; omega
@@ -919,9 +1087,9 @@ theorem flushAll_rel (app : App) (hsm : app.instrs.length < 250) (s : State) (a'
     simp only [flushAll, List.length_map]; exact h.eqw
   · intro _ x hxm; simp [flushAll, BufferedBus.clean] at hxm
   · intro e he; simp [flushAll, BufferedBus.clean] at he
-  · refine ⟨h.sid, ?_, ?_⟩
-    · intro _ _ r hr; rw [hrn] at hr; cases hr
-    · intro _ _ ec hec; rw [show (flushAll s pc).writeBus.inside = [] from hwb] at hec; cases hec
+  · refine ⟨h.sid, ?_⟩
+    intro _ _ r hr; rw [hrn] at hr; cases hr
+  · intro _ _; exact Or.inr hrn
   · rcases h.k1 with h1 | h1 | h1
     · exact Or.inl (by (show ((flushAll s pc).eus).length ≤ 1); simp only [flushAll, List.length_map]; exact h1)
     · exact Or.inr (Or.inl h1)
@@ -955,7 +1123,7 @@ theorem goFlush_sim (app : App) (hsm : app.instrs.length < 250) (a' : Arch) (fro
 /-- what a tick has to do with the unpipelined run from `a0` -/
 def TickPostG (app : App) (a0 : Arch) (s' : State) : Event → Prop
   | .running => ∃ k a, Proofs.Mvp4.seqIter app k a0 = some a ∧ (RelG app s' a ∨ RelB app s' a ∨ RelF app s' a)
-  | .done .offEnd => ∃ k a, Proofs.Mvp4.seqIter app k a0 = some a ∧ (∃ c, stepArch Proofs.Mvp4.dc app a = .halt .offEnd c) ∧
+  | .done .offEnd => ∃ k a, Proofs.Mvp4.seqIter app k a0 = some a ∧ (NoJmp app → ∃ c, stepArch Proofs.Mvp4.dc app a = .halt .offEnd c) ∧
       s'.ctx.Registers = a.ctx.Registers ∧ s'.ctx.Memory = a.ctx.Memory
   | .done .err => ∃ k a, Proofs.Mvp4.seqIter app k a0 = some a ∧ ∃ c, stepArch Proofs.Mvp4.dc app a = .halt .err c
   | .done .ret => ∃ k a, Proofs.Mvp4.seqIter app k a0 = some a ∧ (∃ c, stepArch Proofs.Mvp4.dc app a = .halt .ret c) ∧
@@ -1007,7 +1175,7 @@ theorem cycleM_normal_eq (app : App) (s : State) (hm : s.mode = .normal) :
 
 /-- the facts that hold from the `Connect`s to the execute units -/
 structure Ph (app : App) (s : State) (a : Arch) : Prop where
-  front : ∃ n0, a.pc = pcOf n0 ∧ Front app s n0
+  front : ∃ n0, a.pc = pcOf n0 ∧ FrontJ app s n0
   back : Back s.ctx s.writeBus.inside s.executeBus.inside a
   eus : ∀ eu ∈ s.eus, eu.co = .none ∧ eu.memory = []
   wus : ∀ wu ∈ s.wus, wu.co = .none
@@ -1024,6 +1192,7 @@ structure Ph (app : App) (s : State) (a : Arch) : Prop where
   retQ : 1 ≤ s.eus.length → ∀ x ∈ s.executeBus.queue, isRet x → s.executeBus.queue = [x]
   noRetBuf : ∀ e ∈ s.executeBus.buffer, ¬ isRet e.2
   seqs : Seqs app s a
+  stale : ¬ NoCond app → s.ctx.sequenceID = 0 → Wlt s a ∨ Quiet s
   k1 : s.eus.length ≤ 1 ∨ NoCond app ∨ WideP s
 
 theorem connect_split {α : Type} (b : BufferedBus α) (c : Int) :
@@ -1066,10 +1235,27 @@ theorem connected_ph (app : App) (s : State) (a : Arch) (hr : RelG app s a) : Ph
           exact absurd hrx (hnb e (by rw [hm1]; exact List.mem_append_left _ he))
       · intro e he
         exact hnb e (by rw [hm1]; exact List.mem_append_right _ he)
-  refine ⟨⟨n0, hpc, ?_⟩, ?_, hr.eus, hr.wus, ?_, ?_, ?_, ?_, ?_, by (show (s.executeBus.connect (s.cycles + 1)).queue.length ≤ 2); omega, hr.eqw, hr.pend, hr.l1d, hr.mode, hret.1, hret.2, ?_, ?_⟩
-  rotate_right 2
+  have hrun : runners (connected s) = runners s := by
+    simp only [runners, connected, inside_connect]
+  refine ⟨⟨n0, hpc, ?_⟩, ?_, hr.eus, hr.wus, ?_, ?_, ?_, ?_, ?_, by (show (s.executeBus.connect (s.cycles + 1)).queue.length ≤ 2); omega, hr.eqw, hr.pend, hr.l1d, hr.mode, hret.1, hret.2, ?_, ?_, ?_⟩
+  rotate_right 3
   · exact hr.seqs.mono rfl (fun r hmem => Or.inl (by simpa only [runners, connected, inside_connect] using hmem))
-      (fun ec hec => by simpa only [connected, inside_connect] using hec)
+  · intro hnc h0
+    rcases hr.stale hnc h0 with h1 | h1
+    · exact Or.inl (fun ec hec => h1 ec (by simpa only [connected, inside_connect] using hec))
+    · right
+      obtain ⟨r1, r2, r3, r4⟩ := runners_nil h1
+      refine ⟨?_, r3, ?_, by simp only [connected, hw]⟩
+      · show (s.executeBus.connect (s.cycles + 1)).inside = []
+        rw [inside_connect]; simp only [BufferedBus.inside, r1, r2, List.map_nil, List.append_nil]
+      obtain ⟨moved, hm1, hm2⟩ := connect_split s.controlBus (s.cycles + 1)
+      simp only [BufferedBus.inside, List.append_eq_nil_iff, List.map_eq_nil_iff] at r4
+      show (s.controlBus.connect (s.cycles + 1)).queue = []
+      rw [hm2, r4.1]
+      have : moved = [] := by
+        have := hm1; rw [r4.2] at this
+        exact (List.append_eq_nil_iff.mp this.symm).1
+      rw [this]; rfl
   · rcases hr.k1 with h1 | h1 | h1
     · exact Or.inl h1
     · exact Or.inr (Or.inl h1)
@@ -1079,11 +1265,10 @@ theorem connected_ph (app : App) (s : State) (a : Arch) (hr : RelG app s a) : Ph
         by (show (s.executeBus.connect (s.cycles + 1)).bufferLength = 2); rw [(connect_lengths _ _).2]; exact h1.bl⟩)
       show BrHead (s.executeBus.connect (s.cycles + 1)).queue
       rw [hc, h1.xq]; exact h1.br
-  · have hrun : runners (connected s) = runners s := by
-      simp only [runners, connected, inside_connect]
-    refine ⟨by rw [hrun]; exact hf.chain, by rw [hrun]; exact hf.inRange, ?_, hf.clean, ?_, hf.duOk⟩
-    · rw [hrun]; simp only [connected, inside_connect]; exact hf.pcs
-    · simp only [connected, (connect_lengths _ _).2]; exact hf.dlen
+  · have heff : effD (connected s) = effD s := by simp only [effD, connected, inside_connect]
+    refine ⟨by rw [hrun]; exact hf.chain, by rw [hrun]; exact hf.inRange, ?_, by rw [hrun, heff]; exact hf.opn,
+      by rw [hrun]; exact hf.clo, hf.plain⟩
+    simp only [connected, (connect_lengths _ _).2]; exact hf.dlen
   · simp only [connected, inside_connect]; exact hr.back
   · simp only [connected, hw]
   · simp only [connected, hw, hr.wq, List.nil_append, List.length_map]; exact hr.wbk
@@ -1091,8 +1276,8 @@ theorem connected_ph (app : App) (s : State) (a : Arch) (hr : RelG app s a) : Ph
   · simp only [connected, (connect_lengths _ _).2]; exact hr.wbl
   · simp only [connected, (connect_lengths _ _).1]; exact hr.xql
 
-theorem fetch_ph (app : App) (hp : ProgG app) (s s2 : State) (a : Arch) (h : Ph app s a) (hr : fetchCycle app s = .ok s2) :
-    Ph app s2 a := by
+theorem fetch_ph (app : App) (hp : ProgJ app) (s s2 : State) (a : Arch) (h : Ph app s a) (hr : fetchCycle app s = .ok s2) :
+    Ph app s2 a ∧ s2.fu.toCleanPending = false := by
   obtain ⟨n0, hpc, hf⟩ := h.front
   unfold fetchCycle at hr
   simp only [bind, Except.bind] at hr
@@ -1102,20 +1287,36 @@ theorem fetch_ph (app : App) (hp : ProgG app) (s s2 : State) (a : Arch) (h : Ph 
     obtain ⟨fu', mmu', bus'⟩ := v
     simp only [pure, Except.pure, Except.ok.injEq] at hr
     subst hr
-    obtain ⟨e1, e2, e3, e4⟩ := fetchCore_pcs app hp.small _ _ _ _ _ _ _ _ hf.clean hf.dlen hf.pcs hv
-    exact ⟨⟨n0, hpc, ⟨hf.chain, hf.inRange, e1, e2, e3, hf.duOk⟩⟩, h.back, h.eus, h.wus, h.wbuf, h.wqk, h.wql, h.wbl,
-      h.xql, h.xq, h.eqw, h.pend, by (show mmu'.l1d.lines = []); rw [e4]; exact h.l1d, h.mode, h.retQ, h.noRetBuf,
-      h.seqs.mono rfl (fun r hmem => Or.inl hmem) (fun ec hec => hec), h.k1.imp id (Or.imp id (fun w => ⟨w.xb, w.br, w.bl⟩))⟩
+    obtain ⟨f1, f2, f3⟩ := fetchCore_frame app _ _ _ _ _ _ _ hv
+    have hfr : FrontJ app { s with fu := fu', mmu := mmu', decodeBus := bus' } n0 := by
+      refine ⟨hf.chain, hf.inRange, by (show bus'.bufferLength = 2); rw [f1]; exact hf.dlen, ?_, hf.clo,
+        fun hn => ⟨f3, (hf.plain hn).2⟩⟩
+      intro hpd
+      obtain ⟨h1, h2⟩ := hf.opn hpd
+      obtain ⟨e1, e2, e3, e4⟩ := fetchCore_pcs app hp.small _ _ _ _ _ _ _ _ hf.dlen h1 hv
+      refine ⟨?_, h2⟩
+      show Pcs app _ fu' (effD _) 0
+      simp only [effD, e2, Bool.false_eq_true, if_false]
+      exact e1
+    refine ⟨⟨⟨n0, hpc, hfr⟩, h.back, h.eus, h.wus, h.wbuf, h.wqk, h.wql, h.wbl,
+      h.xql, h.xq, h.eqw, h.pend, by (show mmu'.l1d.lines = []); rw [f2]; exact h.l1d, h.mode, h.retQ, h.noRetBuf,
+      h.seqs.mono rfl (fun r hmem => Or.inl hmem), h.stale, h.k1.imp id (Or.imp id (fun w => ⟨w.xb, w.br, w.bl⟩))⟩, f3⟩
 
-theorem decode_ph (app : App) (hp : ProgG app) (s s3 : State) (a : Arch) (h : Ph app s a) (hr : decodeCycle app s = .ok s3) :
-    Ph app s3 a := by
+theorem decode_ph (app : App) (hp : ProgJ app) (s s3 : State) (a : Arch) (h : Ph app s a) (hcl : s.fu.toCleanPending = false)
+    (hr : decodeCycle app s = .ok s3) : Ph app s3 a := by
   obtain ⟨n0, hpc, hf⟩ := h.front
   unfold decodeCycle decodeCore at hr
   by_cases hdr : s.du.ret = true
   · simp only [hdr, if_true, bind, Except.bind, pure, Except.pure, Except.ok.injEq] at hr
     subst hr
-    exact ⟨⟨n0, hpc, hf⟩, h.back, h.eus, h.wus, h.wbuf, h.wqk, h.wql, h.wbl, h.xql, h.xq, h.eqw, h.pend, h.l1d, h.mode, h.retQ, h.noRetBuf, h.seqs, h.k1⟩
-  · simp only [hdr, hf.duOk, Bool.false_eq_true, if_false, bind, Except.bind] at hr
+    exact ⟨⟨n0, hpc, hf⟩, h.back, h.eus, h.wus, h.wbuf, h.wqk, h.wql, h.wbl, h.xql, h.xq, h.eqw, h.pend, h.l1d, h.mode, h.retQ, h.noRetBuf, h.seqs, h.stale, h.k1⟩
+  · cases hpd : s.du.pendingBranchResolution with
+    | true =>
+      simp only [hdr, hpd, if_true, Bool.false_eq_true, if_false, bind, Except.bind, pure, Except.pure, Except.ok.injEq] at hr
+      subst hr
+      exact ⟨⟨n0, hpc, hf⟩, h.back, h.eus, h.wus, h.wbuf, h.wqk, h.wql, h.wbl, h.xql, h.xq, h.eqw, h.pend, h.l1d, h.mode, h.retQ, h.noRetBuf, h.seqs, h.stale, h.k1⟩
+    | false =>
+    simp only [hdr, hpd, Bool.false_eq_true, if_false, bind, Except.bind] at hr
     split at hr
     · cases hr
     · rename_i v hv
@@ -1126,7 +1327,8 @@ theorem decode_ph (app : App) (hp : ProgG app) (s s3 : State) (a : Arch) (h : Ph
       simp only [runners] at hchain
       rw [chain_append] at hchain
       have hin := hf.inRange
-      have hpcs := hf.pcs
+      obtain ⟨hpcs, hnoj⟩ := hf.opn hpd
+      simp only [effD, hcl, Bool.false_eq_true, if_false] at hpcs
       simp only [runners, List.length_append] at hin hpcs
       have hpcs' : Pcs app (n0 + (s.executeBus.inside ++ s.cuPendings.items.map (·.2)).length + s.controlBus.inside.length)
           s.fu s.decodeBus.inside 0 := by
@@ -1137,14 +1339,51 @@ theorem decode_ph (app : App) (hp : ProgG app) (s s3 : State) (a : Arch) (h : Ph
       have hin' : n0 + (s.executeBus.inside ++ s.cuPendings.items.map (·.2)).length + s.controlBus.inside.length ≤ app.instrs.length := by
         simp only [List.length_append]; omega
       have hsq := decodeLoop_seq app s.ctx s.cycles _ s.du du' s.decodeBus d' s.controlBus c' hv
-      obtain ⟨e1, e2, e3, e4, e5⟩ := decodeLoop_front app hp.small hp.cls s.ctx s.cycles s.fu
+      have hqq := decodeLoop_queue app s.ctx s.cycles _ s.du du' s.decodeBus d' s.controlBus c' hv
+      obtain ⟨e1, e2, e5, added, e3, e4⟩ := decodeLoop_front app hp.small s.ctx s.cycles s.fu
         (n0 + (s.executeBus.inside ++ s.cuPendings.items.map (·.2)).length) _ s.du du' s.decodeBus d' s.controlBus c'
         hchain.2 hin' hpcs' hv
-      refine ⟨⟨n0, hpc, ⟨?_, ?_, ?_, hf.clean, by (show d'.bufferLength = 2); rw [e5]; exact hf.dlen,
-          by (show du'.pendingBranchResolution = false); rw [e4]; exact hf.duOk⟩⟩,
-        h.back, h.eus, h.wus, h.wbuf, h.wqk, h.wql, h.wbl, h.xql, h.xq, h.eqw, h.pend, h.l1d, h.mode, h.retQ, h.noRetBuf, ?_, h.k1.imp id (Or.imp id (fun w => ⟨w.xb, w.br, w.bl⟩))⟩
-      rotate_right
-      · refine h.seqs.mono rfl ?_ (fun ec hec => hec)
+      have hrun3 : runners { s with du := du', decodeBus := d', controlBus := c' } = runners s ++ added := by
+        simp only [runners, e3, List.append_assoc]
+      have hch3 : Chain app n0 (runners { s with du := du', decodeBus := d', controlBus := c' }) := by
+        simp only [runners]; rw [chain_append]; exact ⟨hchain.1, e1⟩
+      have hfr : FrontJ app { s with du := du', decodeBus := d', controlBus := c' } n0 := by
+        refine ⟨hch3, ?_, by (show d'.bufferLength = 2); rw [e5]; exact hf.dlen, ?_, ?_, ?_⟩
+        · simp only [runners, List.length_append] at e2 ⊢; omega
+        · intro hpd'
+          rcases e4 with ⟨u1, u2, u3⟩ | ⟨u1, _⟩
+          · refine ⟨?_, ?_⟩
+            · show Pcs app _ s.fu (effD _) 0
+              simp only [effD, hcl, Bool.false_eq_true, if_false]
+              simp only [runners, List.length_append] at u2 ⊢
+              rw [Nat.add_assoc] at u2; exact u2
+            · intro r hr
+              rw [hrun3] at hr
+              rcases List.mem_append.mp hr with hr | hr
+              · exact hnoj r hr
+              · exact u3 r hr
+          · rw [show du'.pendingBranchResolution = true from u1] at hpd'; cases hpd'
+        · intro hpd'
+          rcases e4 with ⟨u1, _, _⟩ | ⟨_, pre, j, u2, u3, u4⟩
+          · rw [show du'.pendingBranchResolution = s.du.pendingBranchResolution from u1, hpd] at hpd'; cases hpd'
+          · refine ⟨runners s ++ pre, j, by rw [hrun3, u2, List.append_assoc], u3, ?_⟩
+            intro r hr
+            rcases List.mem_append.mp hr with hr | hr
+            · exact hnoj r hr
+            · exact u4 r hr
+        · intro hn
+          refine ⟨hcl, ?_⟩
+          rcases e4 with ⟨u1, _, _⟩ | ⟨_, pre, j, u2, u3, u4⟩
+          · rw [show du'.pendingBranchResolution = s.du.pendingBranchResolution from u1]; exact hpd
+          · exfalso
+            have hjm : j.instr ∈ app.instrs := chain_mem app _ n0 hch3 j (by rw [hrun3, u2]; simp)
+            simp only [NoJmp, List.all_eq_true, Bool.not_eq_true'] at hn
+            have := hn j.instr hjm
+            simp only [isJ] at u3
+            rw [u3] at this; cases this
+      refine ⟨⟨n0, hpc, hfr⟩,
+        h.back, h.eus, h.wus, h.wbuf, h.wqk, h.wql, h.wbl, h.xql, h.xq, h.eqw, h.pend, h.l1d, h.mode, h.retQ, h.noRetBuf, ?_, ?_, h.k1.imp id (Or.imp id (fun w => ⟨w.xb, w.br, w.bl⟩))⟩
+      · refine h.seqs.mono rfl ?_
         intro r hmem
         simp only [runners, List.mem_append] at hmem ⊢
         rcases hmem with (hmem | hmem) | hmem
@@ -1153,10 +1392,10 @@ theorem decode_ph (app : App) (hp : ProgG app) (s s3 : State) (a : Arch) (h : Ph
         · rcases hsq r hmem with h1 | h1
           · exact Or.inl (Or.inr h1)
           · right; intro h0; rw [h1, h0]; simp
-      · simp only [runners]; rw [chain_append]; exact ⟨hchain.1, e1⟩
-      · simp only [runners, List.length_append] at e2 ⊢; omega
-      · simp only [runners, List.length_append] at e3 ⊢
-        rw [Nat.add_assoc] at e3; exact e3
+      · intro hnc h0
+        rcases h.stale hnc h0 with h1 | h1
+        · exact Or.inl h1
+        · exact Or.inr ⟨h1.1, h1.2.1, by (show c'.queue = []); rw [hqq]; exact h1.2.2.1, h1.2.2.2⟩
 
 /-- the control unit: the result is ready for the execute units -/
 theorem control_mid (app : App) (s : State) (a : Arch) (h : Ph app s a) : Mid app (controlCycle s) a 0 ∧
@@ -1174,14 +1413,15 @@ theorem control_mid (app : App) (s : State) (a : Arch) (h : Ph app s a) : Mid ap
   have hrun : runners (controlCycle s) = runners s := by
     simp only [runners, b4, List.append_assoc]
     rw [← List.append_assoc pushed, i2]
-  refine ⟨⟨⟨n0, hpc, ⟨by rw [hrun]; exact hf.chain, by rw [hrun]; exact hf.inRange, ?_, by rw [fr.fu]; exact hf.clean,
-      by rw [fr.decodeBus]; exact hf.dlen, by rw [fr.du]; exact hf.duOk⟩⟩, ?_, by rw [fr.eus]; exact h.eus, ?_, ?_, ?_, ?_, ?_, ?_,
-      h.seqs.mono (issued_sid i1).1 (fun r hmem => Or.inl (by rw [hrun] at hmem; exact hmem)) (fun ec hec => by rw [fr.writeBus] at hec; exact hec),
-      ?_⟩,
+  have heff : effD (controlCycle s) = effD s := by simp only [effD, fr.fu, fr.decodeBus]
+  refine ⟨⟨⟨n0, hpc, ⟨by rw [hrun]; exact hf.chain, by rw [hrun]; exact hf.inRange, by rw [fr.decodeBus]; exact hf.dlen,
+      by rw [hrun, fr.fu, fr.du, heff]; exact hf.opn, by rw [hrun, fr.du]; exact hf.clo, by rw [fr.fu, fr.du]; exact hf.plain⟩⟩,
+      ?_, by rw [fr.eus]; exact h.eus, ?_, ?_, ?_, ?_, ?_, ?_,
+      h.seqs.mono (issued_sid i1).1 (fun r hmem => Or.inl (by rw [hrun] at hmem; exact hmem)),
+      ?_, ?_⟩,
     by rw [fr.wus]; exact h.wus, by rw [fr.writeBus, fr.wus]; exact h.wqk, by rw [fr.writeBus]; exact h.wql,
     by rw [b3]; exact h.xql, by rw [b2]; exact h.xq, by rw [fr.eus, fr.wus]; exact h.eqw, i3, by rw [fr.mmu]; exact h.l1d,
     by rw [fr.mode]; exact h.mode⟩
-  · rw [hrun, fr.fu, fr.decodeBus]; exact hf.pcs
   · rw [fr.writeBus]; exact b1
   · rw [fr.writeBus, h.wbuf]; exact Nat.le_refl _
   · rw [fr.writeBus, h.wbuf, b2]; simp only [List.length_nil, Nat.zero_add]; exact h.xq
@@ -1192,6 +1432,12 @@ theorem control_mid (app : App) (s : State) (a : Arch) (h : Ph app s a) : Mid ap
     rw [fr.eus] at hK
     exact ⟨h.retQ hK x hx hrx, rfl⟩
   · rw [fr.cycles]; exact hrb
+  · intro hnc h0
+    rw [(issued_sid i1).1] at h0
+    rcases h.stale hnc h0 with h1 | h1
+    · exact Or.inl (fun ec hec => h1 ec (by rw [fr.writeBus] at hec; exact hec))
+    · obtain ⟨q1, q2, q3⟩ := controlCycle_quiet s h1.2.1 h1.2.2.1
+      exact Or.inr (Or.inl ⟨by rw [q1]; exact h1.1, by rw [q2]; exact h1.2.1, q3, by rw [fr.writeBus]; exact h1.2.2.2⟩)
   · rcases h.k1 with h1 | h1 | h1
     · exact Or.inl (by rw [fr.eus]; exact h1)
     · exact Or.inr (Or.inl h1)
@@ -1271,7 +1517,8 @@ theorem eus_idle_any (s : State) (h : ∀ eu ∈ s.eus, eu.co = .none ∧ eu.mem
 
 /-- **one tick is a number of steps of the unpipelined machine** (straight-line register-only programs that may `ret`,
 any number of execute and write units) -/
-theorem cycleM_simG (app : App) (hp : ProgG app) (a0 : Arch) (s s' : State) (a : Arch) (k : Nat) (ev : Event)
+theorem cycleM_simG (app : App) (hp : ProgJ app) (a0 : Arch) (hT : ∀ k a, Proofs.Mvp4.seqIter app k a0 = some a → TgtOk app a)
+    (s s' : State) (a : Arch) (k : Nat) (ev : Event)
     (hk : Proofs.Mvp4.seqIter app k a0 = some a) (hr : RelG app s a ∨ RelB app s a ∨ RelF app s a) (h : cycleM app s = .ok (s', ev)) :
     TickPostG app a0 s' ev := by
   rcases hr with hr | hr | hr
@@ -1281,18 +1528,18 @@ theorem cycleM_simG (app : App) (hp : ProgG app) (a0 : Arch) (s s' : State) (a :
     split at h
     · cases h
     · rename_i s2 h2
-      have ph2 := fetch_ph app hp _ s2 a ph1 h2
+      obtain ⟨ph2, hcl2⟩ := fetch_ph app hp _ s2 a ph1 h2
       split at h
       · cases h
       · rename_i s3 h3
-        have ph3 := decode_ph app hp s2 s3 a ph2 h3
+        have ph3 := decode_ph app hp s2 s3 a ph2 hcl2 h3
         obtain ⟨hmid, c_wus, c_wqk, c_wql, c_xql, c_xq, c_eqw, c_pend, c_l1d, c_mode⟩ := control_mid app s3 a ph3
         split at h
         · cases h
         · rename_i v hv
           obtain ⟨s5, acc⟩ := v
           simp only at h
-          rcases eusCycle_sim app hp a0 _ 0 _ s5 {} acc k a (by omega) hmid hk rfl hv with
+          rcases eusCycle_sim app hp a0 hT _ 0 _ s5 {} acc k a (by omega) hmid hk rfl hv with
             ⟨rfl, k', a', hk', hm5, keep⟩ | ⟨herr, k', a', hk', c, hc⟩ | ⟨rfl, k', a', hk', hret⟩ | ⟨a', from_, rfl, k', hk', hfl⟩
           · -- no error, no `ret`: the write units, then the end of the tick
             simp only [afterEus, Bool.false_eq_true, if_false, bind, Except.bind] at h
@@ -1302,7 +1549,7 @@ theorem cycleM_simG (app : App) (hp : ProgG app) (a0 : Arch) (s s' : State) (a :
             · rename_i s6 h6
               obtain ⟨b6, wk, q6⟩ := wusCycle_sim s5 s6 a' hwus5 hm5.back h6
               obtain ⟨n0, hpc, hf5⟩ := hm5.front
-              have hf6 : Front app s6 n0 := hf5.of_eq wk.executeBus wk.cuPendings wk.controlBus wk.fu wk.decodeBus wk.du
+              have hf6 : FrontJ app s6 n0 := hf5.of_eq wk.executeBus wk.cuPendings wk.controlBus wk.fu wk.decodeBus wk.du
               have hq6 : s6.writeBus.queue = [] := by
                 have h1 : s5.writeBus.queue.length ≤ s5.wus.length := by rw [keep.wq, keep.wus]; exact c_wqk
                 exact List.length_eq_zero_iff.mp (by omega)
@@ -1323,7 +1570,12 @@ theorem cycleM_simG (app : App) (hp : ProgG app) (a0 : Arch) (s s' : State) (a :
                     exact List.length_eq_zero_iff.mp (by omega)
                   simp only [runners, inside_nil_of_isEmpty _ hxb, inside_nil_of_isEmpty _ hcb, this, List.map_nil, List.append_nil]
                 have hdn := inside_nil_of_isEmpty _ hd
-                obtain ⟨h0, p1, p2, p3, p4, p5, p6, p7⟩ := hf6.pcs
+                have hwi := inside_nil_of_isEmpty _ hwb
+                have hregs := b6.regs
+                rw [hwi] at hregs
+                refine ⟨k', a', hk', ?_, hregs.symm, b6.mem.symm⟩
+                intro hnj
+                obtain ⟨h0, p1, p2, p3, p4, p5, p6, p7⟩ := (hf6.toFront hnj).pcs
                 rw [hdn] at p2 p7
                 rw [hrn] at p3
                 simp only [List.length_nil, Nat.add_zero] at p2 p3 p7
@@ -1331,18 +1583,15 @@ theorem cycleM_simG (app : App) (hp : ProgG app) (a0 : Arch) (s s' : State) (a :
                 rw [hrn] at hin
                 simp only [List.length_nil, Nat.add_zero] at hin
                 have hge : app.instrs.length ≤ n0 := by
-                  have := p7 hcomp
+                  have := p7 hcomp hnj
                   rcases p3 with p3 | p3
                   · omega
                   · exact p3.2
-                have hwi := inside_nil_of_isEmpty _ hwb
-                have hregs := b6.regs
-                rw [hwi] at hregs
-                exact ⟨k', a', hk', stepArch_offEnd app a' n0 hpc hp.small hge hin, hregs.symm, b6.mem.symm⟩
+                exact stepArch_offEnd app a' n0 hpc hp.small hge hin
               · simp only [pure, Except.pure, Except.ok.injEq, Prod.mk.injEq] at h
                 obtain ⟨rfl, rfl⟩ := h
                 refine ⟨k', a', hk', Or.inl ⟨⟨n0, hpc, hf6⟩, b6, by rw [wk.eus]; exact hm5.eus, by rw [wk.wus]; exact hwus5, hq6,
-                  ?_, ?_, ?_, ?_, ?_, ?_, ?_, ?_, ?_, hl1d, ?_, ?_, ?_, ?_, ?_⟩⟩
+                  ?_, ?_, ?_, ?_, ?_, ?_, ?_, ?_, ?_, hl1d, ?_, ?_, ?_, ?_, ?_, ?_⟩⟩
                 · rw [wk.wbuf]; have := hm5.room; omega
                 · rw [wk.wbuf, wk.wus, keep.wus]; have h1 := hm5.wbi; have h2 := c_eqw; omega
                 · rw [wk.wbuf, hcyc]; exact hm5.stamps
@@ -1360,7 +1609,17 @@ theorem cycleM_simG (app : App) (hp : ProgG app) (a0 : Arch) (s s' : State) (a :
                   rw [keep.eul] at hK
                   omega
                 · rw [wk.executeBus, hcyc]; exact hm5.retBuf
-                · exact hm5.seqs.mono wk.sid (fun r hmem => Or.inl (by simpa only [runners, wk.executeBus, wk.cuPendings, wk.controlBus] using hmem)) wk.wsub
+                · exact hm5.seqs.mono wk.sid (fun r hmem => Or.inl (by simpa only [runners, wk.executeBus, wk.cuPendings, wk.controlBus] using hmem))
+                · intro hnc h0
+                  rw [wk.sid] at h0
+                  have hrun6 : runners s6 = runners s5 := by simp only [runners, wk.executeBus, wk.cuPendings, wk.controlBus]
+                  rcases hm5.stale hnc h0 with h1 | h1 | h1
+                  · exact Or.inl (h1.mono wk.wsub)
+                  · left
+                    intro ec hec
+                    simp only [BufferedBus.inside, hq6, wk.wbuf, h1.2.2.2, List.map_nil, List.append_nil] at hec
+                    cases hec
+                  · exact Or.inr (by rw [hrun6]; exact h1)
                 · rcases hm5.k1 with h1 | h1 | h1
                   · exact Or.inl (by rw [wk.eus]; exact h1)
                   · exact Or.inr (Or.inl h1)
@@ -1403,7 +1662,7 @@ theorem cycleM_simG (app : App) (hp : ProgG app) (a0 : Arch) (s s' : State) (a :
                fun eu he => (hfl.eus eu he).2, by rw [hfl.keep.eul, hfl.keep.wus]; exact c_eqw,
                by rw [hfl.keep.wql]; exact c_wql, by rw [hfl.keep.wbl]; exact hmid.wbl, by rw [hfl.keep.xql]; exact c_xql,
                by rw [hfl.keep.decodeBus]; exact hf4.dlen,
-               by rw [hfl.keep.mmu]; exact c_l1d, by rw [hfl.keep.fu]; exact hf4.clean, by rw [hfl.keep.ctx]; exact hsid4,
+               by rw [hfl.keep.mmu]; exact c_l1d, hfl.plain, by rw [hfl.keep.ctx]; exact hsid4,
                by rw [hfl.keep.eul, hfl.keep.xbl]; exact hmid.k1.imp id (Or.imp id (fun w => w.bl)),
                by rw [hfl.keep.wus, ← c_eqw]; exact hfl.k⟩
             split at h
@@ -1473,16 +1732,17 @@ theorem cycleM_simG (app : App) (hp : ProgG app) (a0 : Arch) (s s' : State) (a :
 
 /-! ### the statements of packages R60 and R60b step 1 (programs without conditional branches, any number of units) -/
 
-/-- the state between two ticks, without the two facts only programs with conditional branches need (`Seqs`, at most
-one execute unit): what holds initially for EVERY program and every number of units -/
+/-- the state between two ticks as the statements of packages R60/R60b see it: the front of the pipeline, and — for
+programs without branches and jumps — everything else -/
 structure Rel (app : App) (s : State) (a : Arch) : Prop where
   front : ∃ n0, a.pc = pcOf n0 ∧ Front app s n0
-  rest : Seqs app s a → (s.eus.length ≤ 1 ∨ NoCond app) → RelG app s a
+  rest : NoCond app → RelG app s a
 
-theorem RelG.weak {app : App} {s : State} {a : Arch} (h : RelG app s a) : Rel app s a := ⟨h.front, fun _ _ => h⟩
+theorem RelG.weak {app : App} {s : State} {a : Arch} (h : RelG app s a) (hn : NoCond app) : Rel app s a := by
+  obtain ⟨n0, h1, h2⟩ := h.front
+  exact ⟨⟨n0, h1, h2.toFront (noJmp_of_noCond hn)⟩, fun _ => h⟩
 
-theorem Rel.strong {app : App} {s : State} {a : Arch} (h : Rel app s a) (hn : NoCond app) : RelG app s a :=
-  h.rest ⟨Or.inr hn, fun hc => absurd hn hc, fun hc => absurd hn hc⟩ (Or.inr hn)
+theorem Rel.strong {app : App} {s : State} {a : Arch} (h : Rel app s a) (hn : NoCond app) : RelG app s a := h.rest hn
 
 /-- what a tick has to do with the unpipelined run from `a0` -/
 def TickPost (app : App) (a0 : Arch) (s' : State) : Event → Prop
@@ -1494,32 +1754,50 @@ def TickPost (app : App) (a0 : Arch) (s' : State) : Event → Prop
       s'.ctx.Registers = a.ctx.Registers ∧ s'.ctx.Memory = a.ctx.Memory
   | .done (.panic _) => True
 
-theorem TickPostG.weak {app : App} {a0 : Arch} {s' : State} {ev : Event} (h : TickPostG app a0 s' ev) : TickPost app a0 s' ev := by
+theorem TickPostG.weak {app : App} {a0 : Arch} {s' : State} {ev : Event} (h : TickPostG app a0 s' ev) (hn : NoCond app) :
+    TickPost app a0 s' ev := by
   cases ev with
   | running =>
     obtain ⟨k, a, hk, hr⟩ := h
     refine ⟨k, a, hk, ?_⟩
     rcases hr with hr | hr | hr
-    · exact Or.inl hr.weak
+    · exact Or.inl (hr.weak hn)
     · exact Or.inr (Or.inl hr)
     · exact Or.inr (Or.inr hr)
-  | done hh => cases hh <;> exact h
+  | done hh =>
+    cases hh with
+    | offEnd =>
+      obtain ⟨k, a, hk, h1, h2⟩ := h
+      exact ⟨k, a, hk, h1 (noJmp_of_noCond hn), h2⟩
+    | ret => exact h
+    | err => exact h
+    | panic w => exact h
 
 theorem noCond_of_slr (app : App) (h : StraightLineRet app = true) : NoCond app := by
   simp only [StraightLineRet, List.all_eq_true] at h
   simp only [NoCond, List.all_eq_true, Bool.not_eq_true']
   intro i hi
   have := h i hi
-  simp only [slrInstr, Bool.and_eq_true, Bool.not_eq_true', Gen.InstructionType.IsBranch, Bool.or_eq_false_iff] at this
-  exact this.2.2
+  simp only [slrInstr, Bool.and_eq_true, Bool.not_eq_true'] at this
+  exact this.2
+
+/-- programs of the class without `jalr`: every control transfer goes to a label -/
+theorem tgtOk_of_proved (app : App) (hc : ProvedClass app = true) (a : Arch) : TgtOk app a := by
+  have hj := jclass_of_proved app hc
+  simp only [JClass, Bool.and_eq_true, List.all_eq_true] at hj
+  refine tgtOk_of_labels app hj.1 ?_ a
+  intro i hi hu
+  have := noJmp_of_proved app hc
+  simp only [NoJmp, List.all_eq_true, Bool.not_eq_true'] at this
+  rw [this i hi] at hu; cases hu
 
 theorem cycleM_simR (app : App) (hp : ProgR app) (a0 : Arch) (s s' : State) (a : Arch) (k : Nat) (ev : Event)
     (hk : Proofs.Mvp4.seqIter app k a0 = some a) (hr : Rel app s a ∨ RelB app s a) (h : cycleM app s = .ok (s', ev)) :
     TickPost app a0 s' ev :=
-  (cycleM_simG app hp.toG a0 s s' a k ev hk
+  (cycleM_simG app hp.toG.toJ a0 (fun _ a _ => tgtOk_of_proved app hp.toG.cls a) s s' a k ev hk
     (by rcases hr with h1 | h1
         · exact Or.inl (h1.strong (noCond_of_slr app hp.sl))
-        · exact Or.inr (Or.inl h1)) h).weak
+        · exact Or.inr (Or.inl h1)) h).weak (noCond_of_slr app hp.sl)
 
 /-- the same for programs without `ret`, from the relation between normal ticks (the statement of package R60) -/
 theorem cycleM_sim (app : App) (hp : Prog app) (a0 : Arch) (s s' : State) (a : Arch) (k : Nat) (ev : Event)
